@@ -33,7 +33,7 @@ FailStep(cause) ==
   CASE cause = "bad_args" -> "parse_args"
     [] cause = "same_in_out" -> "same_path"
     [] cause = "missing_input" -> "open_input"
-    [] cause \in {"missing_keyring", "malformed_keyring", "non_utf8_keyring"} -> "open_keyring"
+    [] cause \in {"missing_keyring", "malformed_keyring", "non_utf8_keyring", "non_utf8_keyring_path", "keyring_is_directory"} -> "open_keyring"
     [] cause = "unknown_recipient" -> "find_recipient"
     [] cause = "unknown_sender" -> "find_sender"
     [] cause = "no_private_key" -> "need_private"
@@ -104,7 +104,7 @@ Spec == Init /\ [][Step]_vars /\ WF_vars(Step)
 
 Finished == exit # -1
 Obs == [exit |-> exit, errline |-> errline, named |-> named,
-        out |-> IF cfg.cause \in {"output_device_full", "stdout_full", "stdout_closed"} \cup InputCauses THEN "n/a"
+        out |-> IF cfg.cause \in {"output_device_full", "stdout_full", "stdout_closed", "output_is_directory"} \cup InputCauses THEN "n/a"
                 ELSE IF cfg.outp = "stdout" /\ cfg.cause # "none" /\ cfg.cause \notin LateCauses(cfg.cmd) THEN "none"
                 ELSE IF cfg.outp = "stdout" THEN (IF cfg.cause = "none" THEN "full" ELSE "prefix1")
                 ELSE IF cell = "old" THEN "untouched" ELSE cell]
